@@ -9,6 +9,7 @@ import (
 type Bounds struct {
 	Preempt int // max pre-emptions per execution (-1 = unbounded)
 	Data    int // max data deviations per execution (-1 = unbounded)
+	Sched   int // max schedule deviations = pre-emptions + non-default choices at blocking points (0 or -1 = unbounded)
 }
 
 // Stats of an exploration.
@@ -37,7 +38,7 @@ type Explorer struct {
 	sub   int
 }
 
-func cost(pts []Point, upto int) (pre, data int) {
+func cost(pts []Point, upto int) (pre, data, sched int) {
 	for i := 0; i < upto; i++ {
 		p := pts[i]
 		if p.Chosen == 0 {
@@ -45,6 +46,7 @@ func cost(pts []Point, upto int) (pre, data int) {
 		}
 		switch p.Kind {
 		case PSched:
+			sched++
 			if p.Preempt {
 				pre++
 			}
@@ -98,14 +100,18 @@ func (x *Explorer) explore(body func(), prefix []int, level int) {
 	}
 	for i := len(prefix); i < len(r.Points); i++ {
 		p := r.Points[i]
-		pre, data := cost(r.Points, i)
+		pre, data, sd := cost(r.Points, i)
 		switch p.Kind {
 		case PSched:
+			sd++
 			if p.Preempt {
 				pre++
 			}
 		case PData:
 			data++
+		}
+		if x.Bounds.Sched > 0 && sd > x.Bounds.Sched {
+			continue
 		}
 		if x.Bounds.Preempt >= 0 && pre > x.Bounds.Preempt {
 			continue
